@@ -45,6 +45,8 @@ meta['confirmed'] = {'baseline_tests': base.strip(), 'tests_with_change': mut.st
 json.dump(meta, open(dst, 'w'), indent=1)
 EOP
 head -c 1200 "/tmp/check-$id.log" > "$out/check_quick_output.txt"
+# put the generated tables back to /repo's (the check above regenerated them from the changed tree)
+flock /verif/lean/.giverif.lock sh -c 'cd /verif/translators && for t in gen_*.py; do GIVERIF_REPO=/repo PYTHONPATH=/repo PYTHONDONTWRITEBYTECODE=1 /venv/bin/python $t >/dev/null 2>&1; done'
 git -C /repo worktree remove --force "$wt"
 git -C /repo worktree remove --force "$src" 2>/dev/null
 rm -rf "$src"
